@@ -21,6 +21,7 @@ import (
 	"sync"
 	"sync/atomic"
 	"time"
+	"verifharness/internal/patience"
 )
 
 // Case is one deterministic unit of work. P holds the property-specific
@@ -57,8 +58,8 @@ type Result struct {
 	Sig        string           `json:"sig,omitempty"` // signature for distinct counting (e.g. delivery order hash)
 	Extra      map[string]int64 `json:"extra,omitempty"`
 	Sample     any              `json:"sample,omitempty"`
-	More       []Finding        `json:"more,omitempty"` // additional violations found in the same case
-	Ms         int64            `json:"ms,omitempty"`   // wall time of the case
+	More       []Finding        `json:"more,omitempty"`  // additional violations found in the same case
+	Ms         int64            `json:"ms,omitempty"`    // wall time of the case
 	Dirty      bool             `json:"dirty,omitempty"` // the case left running goroutines behind: restart the worker
 }
 
@@ -197,7 +198,18 @@ func runOne(p Property, c Case) (res Result) {
 			}
 		}()
 		t0 := time.Now()
+		patience.ResetCut()
 		r := p.Run(c)
+		if r.Verdict != Held && patience.WasCut() && !patience.Long() {
+			// a wait was cut short on the quick path: only the verdict of a run with long waits counts
+			patience.SetLong(true)
+			r = p.Run(c)
+			patience.SetLong(false)
+			if r.Extra == nil {
+				r.Extra = map[string]int64{}
+			}
+			r.Extra["rerun_with_long_waits"] = 1
+		}
 		r.ID = c.ID
 		r.Ms = time.Since(t0).Milliseconds()
 		done <- r
@@ -305,7 +317,9 @@ func runParent(p Property, tier string, seed int64, raceBin string) int {
 	}
 	work := filepath.Join(root, ".work", fmt.Sprintf("%s-%d", p.ID, os.Getpid()))
 	os.MkdirAll(work, 0o755)
-	defer os.RemoveAll(work)
+	if os.Getenv("VERIF_KEEP_WORK") == "" { // debugging aid: keep journals and race logs
+		defer os.RemoveAll(work)
+	}
 
 	nw := runtime.NumCPU()
 	if p.Workers != nil {
@@ -572,17 +586,17 @@ func report(p Property, tier string, seed int64, cases []Case, results []Result,
 		}
 	}
 	cov := map[string]any{
-		"evaluations":         len(results),
-		"distinct_nontrivial": len(distinct),
-		"rule":                p.Rule,
-		"samples":             samples,
-		"events_observed":     events,
-		"distinct_signatures": len(sigs),
-		"inconclusive":        inconclusive,
-		"cases_planned":       len(cases),
+		"evaluations":          len(results),
+		"distinct_nontrivial":  len(distinct),
+		"rule":                 p.Rule,
+		"samples":              samples,
+		"events_observed":      events,
+		"distinct_signatures":  len(sigs),
+		"inconclusive":         inconclusive,
+		"cases_planned":        len(cases),
 		"cases_without_result": missing,
-		"known_findings_hit":  knownHit,
-		"measured":            extra,
+		"known_findings_hit":   knownHit,
+		"measured":             extra,
 	}
 	if p.Exhaustive != nil {
 		if s := p.Exhaustive(tier); s != "" {
